@@ -14,8 +14,19 @@ import gffutils
 import argparse
 from traceback import print_exc
 import gzip
+import tempfile
 
 logger = logging.getLogger('IsoQuant')
+
+
+def dump_json_atomically(data, json_path):
+    # the config files are shared by all IsoQuant runs of a user: write a temporary file in the same folder and
+    # rename it, so that a concurrent (or interrupted) run never sees a truncated or partially written file
+    fd, tmp_path = tempfile.mkstemp(prefix=os.path.basename(json_path) + ".", suffix=".tmp",
+                                    dir=os.path.dirname(json_path))
+    with os.fdopen(fd, 'w') as f_out:
+        json.dump(data, f_out)
+    os.replace(tmp_path, json_path)
 
 
 def db2gtf(db, gtf, _=None):
@@ -366,8 +377,7 @@ def convert_db(gtf_filename, genedb_filename, convert_fn, args):
         'db_mtime': os.path.getmtime(genedb_filename),
         'complete_db': args.complete_genedb
     }
-    with open(args.db_config_path, 'w') as f_out:
-        json.dump(converted_gtfs, f_out)
+    dump_json_atomically(converted_gtfs, args.db_config_path)
     return gtf_filename, genedb_filename
 
 
